@@ -96,11 +96,12 @@ def showOut : Out → String
 /-! `hist <raising 0|1> <profiles +-joined|-> <fuel> <step> <step> …` — a history on the top-level state machine
 (`Model/Globals.lean`); steps (blank separated tokens, bodies in parentheses):
   `log0|log1`  `imp ( inner ) RES ( sub )`  `mode0|mode1`  `pref i v`  `ind0|ind1`  `newser`  `prof LIST`
-  `pstr P INP ( body )`  `psty P INP ( body )`  `pfile P FOUND INP ( body )`  `purl P ( inner ) RES INP ( body )`
+  `newp RV`  `pstr P V INP ( body )`  `psty P V INP ( body )`  `pfile P V FOUND INP ( body )`
+  `purl P V ( inner ) RES INP ( body )`   (P = o<i> | f<r><v> | R | L;  V = validate argument: - | 0 | 1)
   `direct ( body )`  `comb STEP ( post ) ( serBody )`  `ser RULES`
   P = R|L, INP = s|b|x, RES = C|N|Rd|Rx|Ro|Ru0|Ru1, RULES = `els:spec;spec,els:spec` (els `1+2`, spec `0.0.1.1`)
 reply: one observation per top-level step, joined by ` | `:
-  `<ok|dom|decode|os|user0|user1> <obs,…|-> <raising> <saved empty> <same serializer> <prefs> <indent> <level> <#selectors> <profiles>` -/
+  `<ok|dom|decode|os|user0|user1> <obs,…|-> <raising> <saved empty> <same serializer> <prefs> <indent> <profiles> <parsers rv,rv…>` -/
 
 def parseRes : String → Option FetchRes
   | "C" => some .content
@@ -112,9 +113,21 @@ def parseRes : String → Option FetchRes
   | "Ru1" => some (.raises (.user true))
   | _ => none
 
-def parseP : String → Option Parser
-  | "R" => some ⟨true⟩
-  | "L" => some ⟨false⟩
+/-- `o3` = the parser object number 3; `f10` = a parser made for this call (raiseExceptions=1, validate=0);
+`R` / `L` = `f11` / `f01` -/
+def parseP (w : String) : Option PRef :=
+  match w.toList with
+  | ['R'] => some (.fresh ⟨true, true⟩)
+  | ['L'] => some (.fresh ⟨false, true⟩)
+  | ['f', r, v] => some (.fresh ⟨r == '1', v == '1'⟩)
+  | 'o' :: ds => (String.ofList ds).toNat?.map .obj
+  | _ => none
+
+/-- the per-call `validate` argument: `-` (not given), `0`, `1` -/
+def parseV : String → Option (Option Bool)
+  | "-" => some none
+  | "0" => some (some false)
+  | "1" => some (some true)
   | _ => none
 
 def parseInp : String → Option Input
@@ -147,6 +160,9 @@ def parseStep : Nat → List String → Option (Step × List String)
       | some i, some v => some (.setPref i v, r)
       | _, _ => none
     | "prof" :: l :: r => (parseNats l).map fun l => (.setProfiles l, r)
+    | "newp" :: w :: r => match w.toList with
+      | [a, b] => some (.newParser ⟨a == '1', b == '1'⟩, r)
+      | _ => none
     | "ser" :: rules :: r => (parseList parseRule ',' rules).map fun rs => (.serialize rs, r)
     | "imp" :: "(" :: r =>
       match parseSteps fuel r with
@@ -155,25 +171,25 @@ def parseStep : Nat → List String → Option (Step × List String)
         | some res, some (sub, r) => some (.imp inner res sub, r)
         | _, _ => none
       | _ => none
-    | "pstr" :: p :: inp :: "(" :: r =>
-      match parseP p, parseInp inp, parseSteps fuel r with
-      | some p, some inp, some (body, r) => some (.parseString p inp body, r)
-      | _, _, _ => none
-    | "psty" :: p :: inp :: "(" :: r =>
-      match parseP p, parseInp inp, parseSteps fuel r with
-      | some p, some inp, some (body, r) => some (.parseStyle p inp body, r)
-      | _, _, _ => none
-    | "pfile" :: p :: found :: inp :: "(" :: r =>
-      match parseP p, parseInp inp, parseSteps fuel r with
-      | some p, some inp, some (body, r) => some (.parseFile p (found == "1") inp body, r)
-      | _, _, _ => none
-    | "purl" :: p :: "(" :: r =>
-      match parseP p, parseSteps fuel r with
-      | some p, some (inner, res :: inp :: "(" :: r) =>
+    | "pstr" :: p :: v :: inp :: "(" :: r =>
+      match parseP p, parseV v, parseInp inp, parseSteps fuel r with
+      | some p, some v, some inp, some (body, r) => some (.parseString p v inp body, r)
+      | _, _, _, _ => none
+    | "psty" :: p :: v :: inp :: "(" :: r =>
+      match parseP p, parseV v, parseInp inp, parseSteps fuel r with
+      | some p, some v, some inp, some (body, r) => some (.parseStyle p v inp body, r)
+      | _, _, _, _ => none
+    | "pfile" :: p :: v :: found :: inp :: "(" :: r =>
+      match parseP p, parseV v, parseInp inp, parseSteps fuel r with
+      | some p, some v, some inp, some (body, r) => some (.parseFile p v (found == "1") inp body, r)
+      | _, _, _, _ => none
+    | "purl" :: p :: v :: "(" :: r =>
+      match parseP p, parseV v, parseSteps fuel r with
+      | some p, some v, some (inner, res :: inp :: "(" :: r) =>
         match parseRes res, parseInp inp, parseSteps fuel r with
-        | some res, some inp, some (body, r) => some (.parseUrl p inner res inp body, r)
+        | some res, some inp, some (body, r) => some (.parseUrl p v inner res inp body, r)
         | _, _, _ => none
-      | _, _ => none
+      | _, _, _ => none
     | "direct" :: "(" :: r =>
       match parseSteps fuel r with
       | some (body, r) => some (.direct body, r)
@@ -219,6 +235,7 @@ def showObs : Obs → String
   | .levels l => "l" ++ showNats l
   | .pp o => "p:" ++ (showOut o).replace " " "_"
   | .none => "n"
+  | .validating b => if b then "v1" else "v0"
 
 def showErr : Err → String
   | .dom => "dom" | .decode => "decode" | .os => "os"
@@ -235,8 +252,8 @@ def runHist (env : Env) (fuel : Nat) : List Step → G → List String
       | .error e => showErr e
     let obs := if r.obs.isEmpty then "-" else ",".intercalate (r.obs.map showObs)
     let line := " ".intercalate [res, obs, b01 r.g.raising, b01 r.g.saved.isEmpty, b01 (r.g.ser.id == g.ser.id),
-      showNats r.g.ser.prefs, b01 r.g.ser.indentSpec, toString r.g.ser.selLevel, toString r.g.ser.selectors.length,
-      showNats r.g.profiles]
+      showNats r.g.ser.prefs, b01 r.g.ser.indentSpec, showNats r.g.profiles,
+      if r.g.parsers.isEmpty then "-" else ",".intercalate (r.g.parsers.map fun p => b01 p.raising ++ b01 p.validate)]
     line :: runHist env fuel ss r.g
 
 def handle (line : String) : String :=
@@ -254,8 +271,8 @@ def handle (line : String) : String :=
   | "hist" :: raising :: profiles :: fuel :: steps =>
     match parseNats profiles, fuel.toNat?, parseTop (steps.length + 1) steps with
     | some pr, some fuel, some steps =>
-      let g : G := { raising := raising == "1", saved := [], pushed := [], ser := ⟨0, [], false, [], 0⟩, nextSer := 1,
-                     profiles := pr }
+      let g : G := { raising := raising == "1", saved := [], pushed := [], ser := ⟨0, [], false⟩, nextSer := 1,
+                     profiles := pr, parsers := [] }
       " | ".intercalate (runHist [] fuel steps g)
     | _, _, _ => "bad-op"
   | _ => "bad-op"
